@@ -427,9 +427,20 @@ def gen_mut(rng):
     g.retain_all()
     for _ in range(rng.randrange(0, 2)):
         g.add(depth=1)
-    k = g.add(depth=rng.randrange(0, 3))
+    k = g.add(depth=rng.choice([0, 0, 1, 2]))      # depth 0: the new target sits exactly at the retention count
     g.ops.append('setval @%d' % k)
-    g.opt(g.clean_roots(rng.randrange(0, 2)))
+    # other live data allocated after the target: cloned ahead of it when it is a root, on a stack, or a frame
+    later = [g.add(depth=rng.randrange(0, 2)) for _ in range(rng.randrange(0, 3))]
+    roots = []
+    for j in later:
+        u = rng.randrange(4)
+        if u == 0:
+            roots.append(j)
+        elif u == 1:
+            g.push(rng.choice(['reg', 'val']), j)
+    if rng.random() < 0.3:
+        roots += g.clean_roots(1)
+    g.opt(roots)
     return g.script()
 
 
@@ -509,7 +520,7 @@ def gen_cases(seed, tier='quick'):
         add('OPT', 'cut', gen_cut(rng))
     for _ in range(n // 15):
         add('OPT', 'big', gen_big(rng))
-    for _ in range(n // 15):
+    for _ in range(n // 5):
         add('OPT', 'mut', gen_mut(rng))
     for k in KINDS:
         add('CLONE', 'c', gen_clone(rng, k))
